@@ -269,6 +269,14 @@ def strip_views(t):
     return t
 
 
+def subst_const(t, pp, repl):
+    if isinstance(t, tuple) and t:
+        if t[0] == "const" and len(t) >= 2 and t[1] == pp:
+            return repl
+        return tuple(subst_const(x, pp, repl) if isinstance(x, tuple) else x for x in t)
+    return t
+
+
 def last_modified(chk, prog):
     ev = sym.Evaluator(prog)
     got, fn = eval_or_blind(chk, ev, "VN", GLM, [P("headers")])
@@ -278,6 +286,9 @@ def last_modified(chk, prog):
     want = sym.opt_match(h, lambda v: sym.opt_match(sym.res_match(call("http::header::value::HeaderValue::to_str", v), lambda s: some(s), lambda e: NONE),
                          lambda s: sym.opt_match(sym.res_match(call("chrono::datetime::DateTime::<chrono::offset::fixed::FixedOffset>::parse_from_rfc2822", s), lambda d: some(d), lambda e: NONE),
                                                  lambda d: some(call("chrono::datetime::DateTime::<Tz>::with_timezone", d, ("Utc",))), lambda: NONE), lambda: NONE), lambda: NONE)
+    # the header may be named by the string or by http's typed constant for the same standard header
+    got = sym.rebuild(got, {("const", "http::header::name::LAST_MODIFIED", "http::header::name::HeaderName"): C("Last-Modified", "&str")})
+    got = subst_const(got, "http::header::name::LAST_MODIFIED", C("Last-Modified", "&str"))
     expect_c(chk, "R-WIRE", GLM, sym.prune(got), sym.prune(want), fn.where(), "the Last-Modified header parsed as RFC 2822 and converted to UTC, None when absent or unparsable")
 
 
